@@ -117,6 +117,15 @@ check("C15", "tool-sim", "exploration",
       "Reference decompressors (Python zlib/lzma/bz2, zstd CLI) are trusted; a flip they do not notice is not required to be detected.",
       "deterministic simulation: seeded chunking + stored-byte fault injection on compressed streams vs plain-input reference", "DESIGN.md 5/C15")
 
+check("C07", "tool-sim", "exploration",
+      "Stored-byte faults on what the packers read: tar streams (every dialect of the independent emitter) truncated at structural and "
+      "seeded offsets, header fields rewritten with and without checksum fix-up, PAX / long-name payloads and sparse maps rewritten, "
+      "gzip/xz/bzip2/zstd wrappings cut or corrupted, all hard-link graphs over 3 names (cycles, self links, chains, links to "
+      "directories); mutated pack, sort and xattr files for gensquashfs. Sanitized build, CPU limit as termination bound. Exit 0 => image "
+      "decodes and passes the C03 validator; exit != 0 => diagnostic and no output file.",
+      "Structure-aimed sampling, not coverage-guided fuzzing; deep multi-field forgeries are out of reach.",
+      "deterministic simulation: stored-byte fault injection on input streams with crash/hang/validity oracle", "DESIGN.md 5/C07")
+
 PENDING = ["C01","C02","C03","C04","C05","C06","C07","C08","C10","C11","C12","C13","C14","C15","C19"]
 NA_REASONS = {
  "C16": "pure relation between two text transducers (describe printer, pack-file tokenizer); no schedule, clock, fault, crash point or history in the statement - deciding it is input enumeration, which deterministic simulation does not do (DESIGN.md section 0)",
@@ -140,7 +149,7 @@ def main():
             "add_only": True,
         },
         "engines": [
-            {"name": "tool-sim", "path": "simos/ + py/pipelines.py", "serves_properties": ["C01", "C02", "C03", "C04", "C08", "C15", "C11", "C12", "C13", "C14"], "kind_free_text": "each tool's real sources linked with simos under --wrap; one process per simulated run"},
+            {"name": "tool-sim", "path": "simos/ + py/pipelines.py", "serves_properties": ["C01", "C02", "C03", "C04", "C07", "C08", "C15", "C11", "C12", "C13", "C14"], "kind_free_text": "each tool's real sources linked with simos under --wrap; one process per simulated run"},
             {"name": "pool-sim", "path": "scn/pool.c", "serves_properties": ["C09"], "kind_free_text": "real threadpool.c under the simos scheduler, many runs per process"},
         ],
         "checks": [CHECKS[k] for k in sorted(CHECKS)],
